@@ -59,16 +59,17 @@ def make_script(evs, seg):
     """-> (script, arrival time per event)"""
     script = []
     times = []
-    if seg == "per-frame":
+    if seg in ("per-frame", "slow-per-frame"):
+        gap = 0.25 if seg == "per-frame" else 1.5
         t = 1.0
         for ev in evs:
             ft = t
             for fr in ev["frames"]:
                 script.append((ft, "frames", fr))
                 last = ft
-                ft += 0.25
+                ft += gap
             times.append(last)
-            t += 1.0
+            t = last + 1.0 if seg == "per-frame" else last + 2.5
         end = t + 1.0
     elif seg == "burst":
         data = b"".join(fr for ev in evs for fr in ev["frames"])
@@ -148,6 +149,11 @@ def run(res, tier, seed, shard, nshards):
         for seg in ("per-frame", "burst"):
             for tls in (False, True):
                 jobs.append((rich, seg, tls, None, name))
+    # through an HTTP CONNECT proxy, with a short http_proxy_timeout and gaps between frames/fragments longer than it
+    for hi, h in enumerate([h for n in range(1, 3) for h in itertools.product(KINDS, repeat=n)]):
+        if quick and hi % 3:
+            continue
+        jobs.append((h, "slow-per-frame", False, "VIA-PROXY", None))
     # documented per-fragment mode (on_cont_message given)
     cont_hists = [h for n in range(1, 4) for h in itertools.product(["text", "binary", "frag2", "frag3", "ping"], repeat=n)]
     for hi, h in enumerate(cont_hists):
@@ -158,6 +164,9 @@ def run(res, tier, seed, shard, nshards):
                 jobs.append((h, seg, tls, "CONT-MODE", None))
     for ji, (h, seg, tls, sub, raising) in enumerate(jobs):
         if ji % nshards != shard:
+            continue
+        if sub == "VIA-PROXY":
+            one(res, W, rng, h, seg, tls, set(CBS), None, via_proxy=True)
             continue
         if sub == "CONT-MODE":
             cont_mode_case(res, W, rng, h, seg, tls)
@@ -171,7 +180,7 @@ def run(res, tier, seed, shard, nshards):
         one(res, W, rng, h, seg, tls, enabled, raising)
 
 
-def one(res, W, rng, hist, seg, tls, enabled, raising_name):
+def one(res, W, rng, hist, seg, tls, enabled, raising_name, via_proxy=False):
     evs = build_history(hist, rng)
     script, times, end = make_script(evs, seg)
     plan = [dict(outcome="ok", script=script)]
@@ -180,9 +189,12 @@ def one(res, W, rng, hist, seg, tls, enabled, raising_name):
 
     def scen():
         H.reset_process_state()
-        run = appsim.AppRun(plan, url="wss://app.test/" if tls else "ws://app.test/", callbacks=enabled, raising=raising)
+        run = appsim.AppRun(plan, url="wss://app.test/" if tls else "ws://app.test/", callbacks=enabled, raising=raising, via_proxy=via_proxy)
         out["run"] = run
-        run.run_forever(sslopt={"cert_reqs": 0} if tls and rng.random() < 0.5 else None)
+        if via_proxy:
+            run.run_forever(http_proxy_host="proxy.test", http_proxy_port=3128, http_proxy_timeout=0.4)
+        else:
+            run.run_forever(sslopt={"cert_reqs": 0} if tls and rng.random() < 0.5 else None)
         return run
 
     S = sched.Sched(horizon=300, watchdog=60)
@@ -192,8 +204,12 @@ def one(res, W, rng, hist, seg, tls, enabled, raising_name):
     except sched.SimFailure as e:
         failure = e
     run = out.get("run")
-    case = {"history": hist, "segmentation": seg, "tls": tls, "callbacks": sorted(enabled), "raising": raising_name}
-    res.case((hist, seg, tls, tuple(sorted(enabled)), raising_name), nontrivial=len(hist) >= 2 or seg != "per-frame")
+    case = {"history": hist, "segmentation": seg, "tls": tls, "callbacks": sorted(enabled), "raising": raising_name, "via_proxy": via_proxy}
+    res.case((hist, seg, tls, tuple(sorted(enabled)), raising_name, via_proxy), nontrivial=len(hist) >= 2 or seg != "per-frame")
+    if via_proxy:
+        res.count("via_proxy_runs")
+        if run is not None and run.connect_requests != ["CONNECT app.test:80 HTTP/1.1"]:
+            res.violation("proxy-not-used", f"CONNECT requests seen: {run.connect_requests}", case, segmentation=seg, tls=tls)
     res.count("tls_runs" if tls else "plain_runs")
     if seg in ("burst", "cut-in-payload"):
         res.count("burst_runs")
